@@ -2,6 +2,7 @@
 from contracts import c_symm as S
 from contracts import py_fc as PF
 
+from contracts import py_fc_layout as FL
 
 def build(run):
     ipf, trf = S.index_permutation_full_contract(), S.translational_full_contract()
@@ -11,3 +12,6 @@ def build(run):
     PF.nsym_list_and_s2pp(run)
     known = run.finding_status("E2") == "known"
     run.verify_c([S.compact_index_permutation_contract(known, True), S.compact_index_permutation_contract(known, False)])
+    run.py_contract(FL.FF, "compact_fc_to_full_fc", lambda: FL.layout_conversions(run), FL.replay_layout)
+    run.py_contract(FL.AF, "Phonopy.symmetrize_force_constants_by_space_group", lambda: FL.space_group_symmetrizer_call(run), FL.replay_space_group)
+    FL.tensor_symmetry_cartesian_rotations(run)
